@@ -41,8 +41,8 @@ MANIFEST = dict(
          'FLOAT/DOUBLE/RES/ZERO statements on 68000, 6809, 6800, 6502, Z80, 8080, 8086, 8051, MSP430, TMS9900, ATmega8 (code and data segment), TMS320C25, TMS320C30, '
          'DSP56000 and PIC16C84 laid down exactly the model\'s bytes at the model\'s addresses, reservations emitted nothing and advanced by the documented amount, '
          'and every argument outside -2^(n-1)..2^n-1 (including values whose low 32 bits alone would fit) and every mix of constants with ? was rejected with an error.',
-    note='Not covered because the manual is silent: encoding of 0.0 in the 80/96-bit formats (the golden images pin exponent $3C00), floats between the assembler\'s '
-         'limit constants and the IEEE overflow threshold, integer arguments of DQ/DT and of float DC sizes, strings in WORD/LONG/ADR/DW.., BYTE on TMS320C2x, DSP56000 strings and '
+    note='Not covered because the manual is silent: encoding of 0.0 in the 80/96-bit formats (the golden images pin exponent $3C00), floats strictly between max finite and the IEEE '
+         'overflow threshold, float literals above the double range (1e309), the non-IEEE float statements (DC.P, EFLOAT/BFLOAT/TFLOAT, C3x SINGLE/EXTENDED, TMS99xxx SINGLE/DOUBLE: layout/rounding not in the manual), integer arguments of DQ/DT and of float DC sizes, strings in WORD/LONG/ADR/DW.., BYTE on TMS320C2x, DSP56000 strings and '
          'multi-argument DC, decimal DC.P, non-zero word reservations at odd addresses under PADDING, the alignment form DS.x 0 for sizes other than W, default state of PADDING outside the 680x0.')
 REGISTERED = True
 
